@@ -37,8 +37,34 @@ def _classes():
             env = self.holder.get("env")
             self.sink.append((kind, event.time, env.now() if env is not None else None))
 
+        def _bench(self, event):
+            # a benchmark account kept by this feature on the environment's own Exchange object: it buys or sells a few
+            # units of every contract at its first two-sided quote and is valued at every quote, i.e. between the quote
+            # update and the environment's own valuation of the same step
+            if not self.holder.get("bench") or self.exchange is None:
+                return
+            try:
+                import math
+                from tradingenv.broker.broker import Broker
+                from tradingenv.broker.trade import Trade
+
+                if getattr(self, "_acct_ex", None) is not self.exchange:
+                    self._acct = Broker(self.exchange, deposit=54321.0)
+                    self._acct_ex, self._acct_pos = self.exchange, set()
+                c = event.contract
+                if type(c).__name__ not in ("Cash", "Rate") and c.symbol not in self._acct_pos:
+                    book = self.exchange[c]
+                    if math.isfinite(book.bid_price) and math.isfinite(book.ask_price):
+                        q = 3.0 if len(self._acct_pos) % 2 == 0 else -2.0
+                        self._acct.transact(Trade(event.time, c, q, book.bid_price, book.ask_price, self._acct.fees))
+                        self._acct_pos.add(c.symbol)
+                self._acct.net_liquidation_value(False)
+            except Exception:  # noqa  (whatever happens to the benchmark account is not what is being judged)
+                pass
+
         def process_EventNBBO(self, event):
             self._rec("q:" + event.contract.symbol, event)
+            self._bench(event)
 
         def process_EventContractDiscontinued(self, event):
             self._rec("d:" + event.contract.symbol, event)
@@ -174,6 +200,9 @@ class EnvSession:
             reward = rw.LogReturn(float(Fraction(sc)), float(Fraction(cl)), float(Fraction(ra)))
         self.sink: list = []
         self.holder: dict = {}
+        if case.get("bench_account"):
+            self.holder["bench"] = True
+            run.tags.add("second-account-on-exchange")
         rec = Recorder(self.sink, self.holder)
         lat_us = int(case.get("latency", 0))
         self.deposit = F(float(Fraction(case.get("deposit", "100000"))))
@@ -218,10 +247,28 @@ class EnvSession:
                 pass
             run.tags.add("shared-transmitter")
         try:
-            self.env = TradingEnv(action_space=space, state=IState([rec, Age()], save=False), reward=reward, transmitter=tx,
-                                  initial_cash=float(self.deposit), broker_fees=BrokerFees(markup, self.rate, prop, fixed),
-                                  latency=lat_us / 1e6, steps_delay=int(case.get("delay", 0)),
-                                  episode_length=case.get("eplen"))
+            if case.get("via_prices"):
+                # the convenience route: the market data is handed over as a price frame (`prices=`), the library
+                # builds the Transmitter itself (one quote per row and column, no spread). The case's events are
+                # exactly those quotes.
+                import pandas as pd
+
+                cols = {}
+                for e in case["events"]:
+                    assert e[0] == "q" and e[3] == e[4], "via_prices: one bid=ask quote per grid point and contract"
+                    cols.setdefault(e[1], {})[from_us(e[2])] = float(Fraction(e[3]))
+                frame = pd.DataFrame({self.objs[k]: pd.Series(v) for k, v in cols.items()}).sort_index()
+                self.env = TradingEnv(action_space=space, state=IState([rec, Age()], save=bool(case.get("state_save", False))),
+                                      reward=reward, prices=frame, initial_cash=float(self.deposit),
+                                      broker_fees=BrokerFees(markup, self.rate, prop, fixed), latency=lat_us / 1e6,
+                                      steps_delay=int(case.get("delay", 0)), episode_length=case.get("eplen"))
+                tx = self.env._transmitter
+                run.tags.add("prices-route")
+            else:
+                self.env = TradingEnv(action_space=space, state=IState([rec, Age()], save=bool(case.get("state_save", False))), reward=reward, transmitter=tx,
+                                      initial_cash=float(self.deposit), broker_fees=BrokerFees(markup, self.rate, prop, fixed),
+                                      latency=lat_us / 1e6, steps_delay=int(case.get("delay", 0)),
+                                      episode_length=case.get("eplen"))
             self.holder["env"] = self.env
         except ValueError as e:
             self.env = None
@@ -233,7 +280,11 @@ class EnvSession:
             # another live environment of the same process (own transmitter, own broker, a delay of one step),
             # stepped with null actions right before every step of the environment under test
             try:
-                tx1 = Transmitter([from_us(t) for t in case["grid"]], folds, bool(case.get("markov", False)),
+                # its own data: a sub-grid of the same timesteps and the default single fold (same fold *name*,
+                # another window)
+                g1 = sorted(set(case["grid"]))
+                g1 = g1[1:-1] if len(g1) >= 5 else g1
+                tx1 = Transmitter([from_us(t) for t in g1], None, bool(case.get("markov", False)),
                                   None if wu is None else dt.timedelta(microseconds=wu))
                 tx1.add_events(list(evs))
                 if sp["kind"] == "box":
@@ -389,6 +440,16 @@ class EnvSession:
             if kind == "step":
                 vals = [float("nan") if v == "nan" else float(Fraction(v)) for v in op[1]]
                 action = np.array(vals, dtype=float)
+                if self.case.get("inplace_null") and self.case["space"]["kind"] == "box" and len(vals) == len(self.case["space"]["keys"]):
+                    # the caller builds its decision in place on top of the array handed out by the public accessor
+                    # `action_space.null_action()` (w = space.null_action(); w[:] = ...; env.step(w))
+                    try:
+                        base = self.space.null_action()
+                        base[...] = action
+                        action = base
+                        self.r.tags.add("decision-written-into-null-action")
+                    except Exception:  # noqa
+                        pass
                 line = "step " + " ".join(fr(v) for v in vals) if vals else "stepj"
             elif kind == "stepi":
                 action = int(op[1])
@@ -402,6 +463,16 @@ class EnvSession:
                 line = "stepj"
             n_before = len(self.env.broker.track_record)
             pos_before = self.positions()
+            if self.case.get("peek_chain"):
+                # a term-structure policy looks at the contract after the lead (a public accessor, implicit clock)
+                # between two steps; the chain keeps resolving to its own lead
+                for ch in self.chains.values():
+                    try:
+                        nxt = ch.lead_contract(month=1)
+                        _ = self.env.exchange[nxt].mid_price
+                    except Exception:  # noqa
+                        pass
+                r.tags.add("policy-peeks-at-next-contract")
             if self.sibling is not None:
                 try:
                     self.sibling[0].step(self.sibling[1].null_action())
@@ -427,6 +498,18 @@ class EnvSession:
                      done_flag=bool(self.env._done))
         else:
             raise ValueError(op)
+        if self.case.get("read_frames") and kind != "reset":
+            # a progress log / live dashboard reads the track record's frames while the episode is still running
+            trk = self.env.broker.track_record
+            for fn in (lambda: trk.net_liquidation_value(), lambda: trk.transaction_costs(cumulative=False),
+                       lambda: trk.transaction_costs(), lambda: trk.weights_actual(before_rebalancing=True),
+                       lambda: trk.weights_actual(before_rebalancing=False), lambda: trk.weights_target(),
+                       lambda: trk.cost_of_spread(), lambda: trk.cost_of_commissions()):
+                try:
+                    fn()
+                except Exception:  # noqa  (an empty record, ...)
+                    pass
+            r.tags.add("frames-read-mid-episode")
         if kind != "reset" and len(self.env.broker.track_record) == o.get("nrec_before", -2) + 1:
             o["rec_time"] = us(self.env.broker.track_record[-1].time)
         entries = self.new_log()
@@ -470,7 +553,10 @@ def run_case(case: dict, compare: set[str] | None = None) -> tuple[ImplRun, EnvS
 CONTEXT_RULE = (" Process context: in a quarter of the generated episodes the same Transmitter object first serves another "
                 "environment built with a different (mostly the largest admissible) latency, which is reset and stepped "
                 "once; in 15% a sibling environment (own transmitter, delay 1) stays alive and is stepped with null "
-                "actions right before every step of the environment under test.")
+                "actions right before every step of the environment under test; in 15% a feature keeps a benchmark account (a second "
+                "Broker) on the environment's own Exchange object, trades every contract once and values that account at "
+                "every quote; in 20% every decision of a box space is written in place into the array returned by "
+                "action_space.null_action().")
 
 
 def gen_grid(rng, n, intraday):
@@ -565,7 +651,7 @@ def gen_episode(rng, tier="quick", *, intraday=None, latency=None, delay=None, n
         # mostly the largest admissible latency: whatever it leaves behind in the shared transmitter then differs
         # most from what the environment under test (smaller latency) needs
         pre_env_latency = max(0, min(rng.choice([0, SEC, mingap // 2, mingap - SEC, mingap - SEC, mingap - SEC]), mingap - SEC))
-    case = dict(pre_env_latency=pre_env_latency, sibling=rng.random() < 0.15, contracts=contracts, fees=fees or rng.choice([["0", "0", "0"], ["0", "1/1000", "0"], ["1/4", "1/2000", "1/200"]]),
+    case = dict(pre_env_latency=pre_env_latency, sibling=rng.random() < 0.15, bench_account=rng.random() < 0.15, inplace_null=rng.random() < 0.2, contracts=contracts, fees=fees or rng.choice([["0", "0", "0"], ["0", "1/1000", "0"], ["1/4", "1/2000", "1/200"]]),
                 deposit=rng.choice(["100000", "10000"]), grid=grid_in, events=events, latency=latency, delay=delay,
                 markov=markov, warmup=warmup, space=space,
                 reward=reward or rng.choice(["simple", "pnl", "log", ["logret", "1/100", "2", "1/10"]]))
